@@ -552,6 +552,97 @@ class _UFMapping:
         return symx.SymReal(self.fx(a, b)), symx.SymReal(self.fy(a, b))
 
 
+class _AffMapping:
+    """GCP mapping whose control points are affinely related: pixel->world is the affine M (the
+    fit reproduces it exactly), world->pixel its inverse"""
+
+    def __init__(self, M, crs=None):
+        from odc.geo.crs import norm_crs
+
+        self.M, self.crs = M, norm_crs(crs)
+        self.approx = M
+
+    def p2w(self, x, y):
+        return self.M * (x, y)
+
+    def w2p(self, x, y):
+        return (~self.M) * (x, y)
+
+
+def h_gcp_affine(op, crop):
+    """GCP GeoBox with affinely related control points: the same relations as a linear GeoBox, exactly"""
+    from affine import Affine
+
+    import odc.geo.gcp as gcp
+    from odc.geo.geobox import GeoBox
+
+    ny, nx = Int("ny", 1), Int("nx", 1)
+    mx, my = Real("mx"), Real("my")
+    lin = (3, F(-1, 2), F(1, 4), -2)
+    if symx.concrete_mode():
+        import numpy as np
+
+        pix = np.asarray([[0.0, 0.0], [100.0, 0.0], [100.0, 80.0], [0.0, 80.0], [30.0, 60.0]])
+        wld = np.stack([pix[:, 0] * 3 - pix[:, 1] * 0.5 + float(mx), pix[:, 0] * 0.25 + pix[:, 1] * -2 + float(my)], axis=1)
+        mp = gcp.GCPMapping(pix, wld, "epsg:3857")
+    else:
+        mp = _AffMapping(Affine(rconst(lin[0]), rconst(lin[1]), mx, rconst(lin[2]), rconst(lin[3]), my), "epsg:3857")
+    if crop:
+        x0, y0 = Int("x0", 0), Int("y0", 0)
+        g = gcp.GCPGeoBox((ny, nx), mp, Affine.translation(x0, y0))
+    else:
+        g = gcp.GCPGeoBox((ny, nx), mp)
+    corners = [g.pix2wld(x, y) for x, y in ((0, 0), (nx, 0), (nx, ny), (0, ny))]
+    xs, ys = [ex(p[0]) for p in corners], [ex(p[1]) for p in corners]
+    def _ext(vals, lt):
+        r = vals[0]
+        for v in vals[1:]:
+            if lt(v, r):  # forks only where the order is not already decided (never, for this linear part)
+                r = v
+        return r
+
+    L, R = _ext(xs, lambda a_, b_: a_ < b_), _ext(xs, lambda a_, b_: a_ > b_)
+    B_, T = _ext(ys, lambda a_, b_: a_ < b_), _ext(ys, lambda a_, b_: a_ > b_)
+    tol = F(1, 10**6) * (1 + abs(L) + abs(R) + abs(B_) + abs(T)) if symx.concrete_mode() else 0
+    if op == "bbox":
+        bb = g.boundingbox
+        l2, b2, r2, t2 = (ex(v) for v in bb.bbox)
+        prove("bbox_is_image_of_pixel_rectangle", And(abs(l2 - L) <= tol, abs(r2 - R) <= tol, abs(b2 - B_) <= tol, abs(t2 - T) <= tol))
+        prove("bbox_crs", bb.crs == g.crs)
+    elif op == "zoom_res":
+        q = F(7, 2)
+        if symx.concrete_mode():
+            g2 = g.zoom_to(resolution=rconst(q))
+        else:
+            # assume-guarantee: boundingbox is replaced by its contract (the world box of the four
+            # corner images), which op="bbox" proves of the real property; the replay runs the real one
+            from odc.geo.geom import BoundingBox
+
+            saved = gcp.GCPGeoBox.__dict__.get("boundingbox")
+            contract = BoundingBox(L, B_, R, T, g.crs)
+            gcp.GCPGeoBox.boundingbox = property(lambda self: contract)
+            try:
+                g2 = g.zoom_to(resolution=rconst(q))
+            finally:
+                if saved is None:
+                    del gcp.GCPGeoBox.boundingbox
+                else:
+                    gcp.GCPGeoBox.boundingbox = saved
+        # same region: the far corner and the origin of the zoomed box are those of the original
+        eq = close_pt if symx.concrete_mode() else same_pt
+        eq("origin_kept", g2.pix2wld(0, 0), g.pix2wld(0, 0))
+        eq("far_corner_kept", g2.pix2wld(g2.shape.x, g2.shape.y), g.pix2wld(nx, ny))
+        prove("crs", g2.crs == g.crs)
+        # pixel count follows the requested resolution: the world box of the footprint divided by q, rounded up (one spare pixel at most)
+        wx, wy = (R - L) / q, (T - B_) / q
+        prove("shape_from_resolution", And(g2.shape.x >= wx - F(1, 100), g2.shape.x < wx + 1 + F(1, 100), g2.shape.y >= wy - F(1, 100), g2.shape.y < wy + 1 + F(1, 100)))
+    elif op == "resolution":
+        r = g.resolution
+        lin_gb = GeoBox((ny, nx), Affine(rconst(lin[0]), rconst(lin[1]), 0.0, rconst(lin[2]), rconst(lin[3]), 0.0), None)
+        r0 = lin_gb.resolution
+        prove("resolution_as_linear", And(abs(ex(r.x) - ex(r0.x)) <= F(1, 10**6), abs(ex(r.y) - ex(r0.y)) <= F(1, 10**6)))
+
+
 def h_gcp(op):
     import odc.geo.gcp as gcp
 
@@ -650,6 +741,12 @@ OBLIGATIONS = [
                                                       [dict(res0=a, res1=b) for a in (["10", "-10"], ["1/4", "1/4"]) for b in (["30", "-30"], ["7/3", "-7/3"], ["1", "-1"], ["1/3", "1/3"])]),
        descr="zoom_to(resolution=): requested pixel size, covers the same region, tight", functions=("odc.geo.geobox.GeoBoxBase.compute_zoom_to", "odc.geo.geobox.GeoBox.from_bbox"),
        bounds="axis-aligned grids, both resolutions from grid", setup=setup, timeout_ms=20000),
+    Ob("G8_gcp_affine", h_gcp_affine, fixed(*[dict(op=o, crop=c) for o in ("bbox", "zoom_res") for c in (False, True)]),
+       descr="GCP GeoBox with affinely related control points: boundingbox is the world image of the pixel rectangle; zoom_to(resolution=) keeps the region",
+       functions=("odc.geo.gcp.GCPGeoBox.boundingbox", "odc.geo.gcp.GCPGeoBox.zoom_to", "odc.geo.geobox.GeoBoxBase.compute_zoom_to", "odc.geo.geobox.GeoBoxBase.extent"),
+       bounds="control-point map = fixed linear part (3,-1/2;1/4,-2) with symbolic offset; shape and crop offset symbolic; target resolution 7/2",
+       stubs=("affine mapping object in place of the fitted GCPMapping (symbolic run; the replay fits a real GCPMapping)", "vertex-list FakeGeometry",
+              "zoom_res: GCPGeoBox.boundingbox replaced by the contract that op=bbox proves (assume-guarantee)"), setup=setup_region),
     Ob("G8_gcp", h_gcp, fixed(dict(op="crop"), dict(op="pad"), dict(op="zoom")), descr="GCPGeoBox crop/pad/zoom: new.pix2wld(p) == old.pix2wld(g(p)) with the fit as an uninterpreted function",
        functions=("odc.geo.gcp.GCPGeoBox.__getitem__", "odc.geo.gcp.GCPGeoBox.pad", "odc.geo.gcp.GCPGeoBox.zoom_out", "odc.geo.gcp.GCPGeoBox.zoom_to", "odc.geo.gcp.GCPGeoBox.pix2wld"),
        stubs=("uninterpreted pixel->world function in place of the polynomial fit",), setup=setup),
